@@ -28,5 +28,5 @@ Extraction "pwm_model.ml"
   dna_K dna_symbols dna_str dna_default dna_comp protein_K protein_symbols protein_str protein_default
   f32_to_Q f32_same f32_close fm_same fm_close cm_same row_same
   check_counts check_freq check_weight check_rescale check_score_cell check_window window_clean
-  bg_must_reject freq_must_reject check_rc_f32 check_rc_N complement_involutive_b
+  bg_must_reject freq_must_reject check_bg_counts bg_counts_spec check_rc_f32 check_rc_N complement_involutive_b
   strand_symmetric check_mirror.
